@@ -195,6 +195,28 @@ func localClosures(fd *ast.FuncDecl) map[*ast.Ident]*ast.FuncLit {
 	return out
 }
 
+// localSelectorBinds: `name := x.sel` declarations (x an identifier) of a function - among them the method values
+// (`contains := slot.Contains`), which only the type checker can tell from field reads.
+func localSelectorBinds(fd *ast.FuncDecl) map[*ast.Ident]*ast.SelectorExpr {
+	out := map[*ast.Ident]*ast.SelectorExpr{}
+	if fd.Body == nil {
+		return out
+	}
+	ast.Inspect(fd.Body, func(n ast.Node) bool {
+		if x, ok := n.(*ast.AssignStmt); ok && x.Tok == token.DEFINE && len(x.Lhs) == 1 && len(x.Rhs) == 1 {
+			if id, ok := x.Lhs[0].(*ast.Ident); ok && id.Name != "_" {
+				if sel, ok := x.Rhs[0].(*ast.SelectorExpr); ok {
+					if _, isId := sel.X.(*ast.Ident); isId {
+						out[id] = sel
+					}
+				}
+			}
+		}
+		return true
+	})
+	return out
+}
+
 func closureKey(relDir string, fd *ast.FuncDecl, name string) string {
 	return "closure:" + declKey(relDir, fd) + ":" + name
 }
@@ -214,6 +236,9 @@ func declaredClosures(repo string, overlay map[string][]byte) map[string]bool {
 		for _, d := range f.Decls {
 			if fd, ok := d.(*ast.FuncDecl); ok {
 				for id := range localClosures(fd) {
+					out[closureKey(rel, fd, id.Name)] = true
+				}
+				for id := range localSelectorBinds(fd) {
 					out[closureKey(rel, fd, id.Name)] = true
 				}
 			}
@@ -399,6 +424,11 @@ func normalize(repo string, pkgs []*packages.Package, overlay map[string][]byte,
 							hasNew = true
 						}
 					}
+					for id := range localSelectorBinds(fd) {
+						if !inventory[closureKey(relDir, fd, id.Name)] {
+							hasNew = true
+						}
+					}
 				}
 			}
 		}
@@ -499,6 +529,9 @@ func normalizePackage(repo, relDir string, p *packages.Package, imp types.Import
 				return false
 			}
 			nsrc, desc, did := foldLocalClosure(np, relDir, inventory, src, names, failed)
+			if !did {
+				nsrc, desc, did = foldMethodValue(np, relDir, inventory, src, names, failed)
+			}
 			if !did {
 				return false
 			}
@@ -2057,4 +2090,144 @@ func condToBody(np *npkg, file int, call *ast.CallExpr, src []byte) ([]byte, boo
 	out.WriteString("\nif !(" + cond + ") {\nbreak\n}\n")
 	out.Write(src[body:])
 	return out.Bytes(), true
+}
+
+
+// foldMethodValue: a method value bound to a local the change introduced (`contains := slot.Contains` … `contains(ts)`)
+// is written back as the method call at every use (`slot.Contains(ts)`). The same computation when the local is only
+// ever called, the receiver is a pointer or interface variable that is never assigned again nor has its address
+// taken (the method value binds the receiver where it is evaluated), and the receiver's name means the same
+// variable at each call.
+func foldMethodValue(np *npkg, relDir string, inventory map[string]bool, src map[string][]byte, names []string, failed map[string]bool) (*foldResult, string, bool) {
+	for fi, f := range np.files {
+		for _, d := range f.Decls {
+			fd, ok := d.(*ast.FuncDecl)
+			if !ok || fd.Body == nil {
+				continue
+			}
+			binds := localSelectorBinds(fd)
+			var ids []*ast.Ident
+			for id := range binds {
+				ids = append(ids, id)
+			}
+			sort.Slice(ids, func(i, j int) bool { return ids[i].Pos() < ids[j].Pos() })
+			for _, id := range ids {
+				sel := binds[id]
+				key := closureKey(relDir, fd, id.Name)
+				if inventory[key] || failed[key] {
+					continue
+				}
+				if sn, ok := np.info.Selections[sel]; !ok || sn.Kind() != types.MethodVal {
+					continue // a field read, not a method value
+				}
+				obj, _ := np.info.Defs[id].(*types.Var)
+				recvId := sel.X.(*ast.Ident)
+				recv, _ := np.info.Uses[recvId].(*types.Var)
+				if obj == nil || recv == nil || recv.Parent() == np.tpkg.Scope() {
+					failed[key] = true
+					continue
+				}
+				switch recv.Type().Underlying().(type) {
+				case *types.Pointer, *types.Interface:
+				default:
+					failed[key] = true
+					continue
+				}
+				// the declaring statement, the uses, and what happens to the receiver
+				var declStmt ast.Stmt
+				parent := map[ast.Node]ast.Node{}
+				var stack []ast.Node
+				okAll := true
+				var calls []*ast.CallExpr
+				ast.Inspect(fd.Body, func(n ast.Node) bool {
+					if n == nil {
+						stack = stack[:len(stack)-1]
+						return false
+					}
+					if len(stack) > 0 {
+						parent[n] = stack[len(stack)-1]
+					}
+					stack = append(stack, n)
+					switch x := n.(type) {
+					case *ast.AssignStmt:
+						if len(x.Lhs) == 1 && x.Lhs[0] == ast.Expr(id) {
+							declStmt = x
+						}
+						for _, l := range x.Lhs {
+							if li, isId := l.(*ast.Ident); isId && (np.info.Uses[li] == types.Object(recv) || (np.info.Defs[li] == types.Object(recv) && x.Pos() > id.Pos())) {
+								okAll = false // the receiver variable is assigned again
+							}
+						}
+					case *ast.IncDecStmt:
+						if li, isId := x.X.(*ast.Ident); isId && np.info.Uses[li] == types.Object(recv) {
+							okAll = false
+						}
+					case *ast.UnaryExpr:
+						if li, isId := x.X.(*ast.Ident); isId && x.Op == token.AND && np.info.Uses[li] == types.Object(recv) {
+							okAll = false
+						}
+					case *ast.RangeStmt:
+						for _, e := range []ast.Expr{x.Key, x.Value} {
+							if li, isId := e.(*ast.Ident); isId && (np.info.Uses[li] == types.Object(recv) || np.info.Defs[li] == types.Object(recv)) {
+								okAll = false
+							}
+						}
+					}
+					return true
+				})
+				ast.Inspect(fd.Body, func(n ast.Node) bool {
+					use, isId := n.(*ast.Ident)
+					if !isId || np.info.Uses[use] != types.Object(obj) {
+						return true
+					}
+					c, isCall := parent[use].(*ast.CallExpr)
+					if !isCall || c.Fun != ast.Expr(use) {
+						okAll = false
+						return true
+					}
+					switch parent[c].(type) {
+					case *ast.GoStmt, *ast.DeferStmt:
+						okAll = false
+					}
+					inner := np.tpkg.Scope().Innermost(c.Pos())
+					if inner == nil {
+						okAll = false
+					} else if _, found := inner.LookupParent(recvId.Name, c.Pos()); found != types.Object(recv) {
+						okAll = false
+					}
+					calls = append(calls, c)
+					return true
+				})
+				if !okAll || declStmt == nil || len(calls) == 0 {
+					failed[key] = true
+					foldDebug(key, "method value not foldable")
+					continue
+				}
+				b := src[names[fi]]
+				off := func(p token.Pos) int { return np.fset.Position(p).Offset }
+				selText := string(b[off(sel.Pos()):off(sel.End())])
+				type edit struct {
+					lo, hi int
+					text   string
+				}
+				var edits []edit
+				for _, c := range calls {
+					edits = append(edits, edit{off(c.Fun.Pos()), off(c.Fun.End()), selText})
+				}
+				edits = append(edits, edit{off(declStmt.Pos()), off(declStmt.End()), ""})
+				sort.Slice(edits, func(i, j int) bool { return edits[i].lo > edits[j].lo })
+				nb := append([]byte{}, b...)
+				for _, e := range edits {
+					nb = append(append(append([]byte{}, nb[:e.lo]...), []byte(e.text)...), nb[e.hi:]...)
+				}
+				out := map[string][]byte{}
+				for n, v := range src {
+					out[n] = v
+				}
+				out[names[fi]] = nb
+				return &foldResult{src: out, file: fi, key: key}, fmt.Sprintf("method value %s of %s written back as %s(...) at its %d call(s)", id.Name, declKey(relDir, fd), selText, len(calls)), true
+			}
+		}
+	}
+	return nil, "", false
 }
